@@ -11,6 +11,7 @@ T  seeded U / S / spiral / comb / ring / checkerboard / noise rasters up to 10x1
    negative values, NaN cells, descending coordinates, renamed dims, attrs, extra coordinates.
 """
 import itertools
+import json
 import random
 
 from harness import core
@@ -18,6 +19,25 @@ from harness import core
 NANV = -99
 INV = ["TypeOK", "PartitionIsComponents", "LabelsPositive", "NaNKept", "PrefixLabelled",
        "NeverJoinsComponents", "MergedBehind"]
+
+
+def mc(ctx, failed, module, cfg, name, **kw):
+    """ctx.model_check for a configuration that must pass: a run that did not complete is a machinery
+    failure; an invariant violated by the *model* is remembered (the replay of the real code decides
+    whether it is a defect of the code or of the model)."""
+    res = ctx.model_check(module, cfg, name, **kw)
+    if res.invariant_violated or res.property_violated or res.assume_failed or res.deadlock:
+        failed.append("%s/%s %s" % (module, name, res.invariant_violated))
+        ctx.note("MODEL-VIOLATION %s/%s: %s" % (module, name, res.invariant_violated))
+    elif not res.ok or res.distinct == 0:
+        raise core.MachineryError("TLC did not complete %s/%s (rc=%s)\n%s" % (module, name, res.rc, res.out[-2500:]))
+    return res
+
+
+def close(ctx, failed):
+    if failed and not ctx.violations:
+        raise core.MachineryError("the algorithm model violates its invariants (%s) but no observation of the real "
+                                  "code violates the property: the model does not describe the code" % "; ".join(failed))
 
 
 def mc_configs(tier):
@@ -239,7 +259,7 @@ def has_nonrectangle(case):
     return False
 
 
-STRIP = ("tag", "dtype", "name_out", "error")
+STRIP = ("tag", "dtype", "name_out", "error", "job")
 
 
 def judge_and_handle(ctx, cases, name, kind, parallel):
@@ -247,8 +267,8 @@ def judge_and_handle(ctx, cases, name, kind, parallel):
     for c in cases:
         if "error" in c:
             ctx.evaluations += 1
-            ctx.violation("regions:call-raised", "call_raised",
-                          {k: c[k] for k in ("H", "W", "n", "vals", "dtype", "tag")}, c["error"])
+            ctx.violation("regions:call-raised", "call_raised", {"job": c["job"]}, c["error"])
+    ctx.judge_extra.clear()
     v = ctx.judge("Regions_Judge", [{k: x for k, x in c.items() if k not in STRIP} for c in good],
                   name=name, parallel=parallel)
     for i, c in enumerate(good):
@@ -262,13 +282,23 @@ def judge_and_handle(ctx, cases, name, kind, parallel):
                 ctx.nontrivial((c["n"], c["H"], c["W"], tuple(map(tuple, c["vals"]))))
         else:
             ctx.violation("regions:%s" % cl, cl,
-                          {k: c[k] for k in c if k not in ("base",)},
+                          {"job": c["job"], "observed": {k: c[k] for k in c if k not in ("base", "job")}},
                           "%s %dx%d n=%d dtype=%s" % (c["tag"], c["H"], c["W"], c["n"], c["dtype"]))
         dr = ctx.judge_extra.get(i)
         if dr and dr.startswith("drift"):
             ctx.report_drift("labels differ from the algorithm model (%s): n=%d vals=%s out=%s"
                              % (kind, c["n"], c["vals"], c["out"]))
     return good
+
+
+def replay(ctx):
+    """./check C16 --replay <file>: that one case again through the real regions() and the judge"""
+    blob = json.load(open(ctx.replay))
+    job = dict(blob["case"]["job"], idx=-1, base=[])
+    cases = core.run_jobs("regions_worker", [job], nproc=1)
+    good = judge_and_handle(ctx, cases, "replay", "replay", parallel=1)
+    print("REPLAY verdict: %s" % ("ok" if (good and not ctx.violations) else
+                                  (ctx.violations[0][1] if ctx.violations else cases[0].get("error"))), flush=True)
 
 
 def run(ctx):
@@ -280,11 +310,14 @@ def run(ctx):
         "inf cells, non-integer values closer than the isclose tolerance and Dask/CuPy backed rasters are outside "
         "the stated domain and not exercised",
     ]
+    if ctx.replay:
+        return replay(ctx)
     rng = random.Random(ctx.seed * 7919 + 16)
     cfgs = mc_configs(ctx.tier)
     # ---- M
+    failed = []
     for (name, H, W, base, n) in cfgs:
-        ctx.model_check("Regions", dict(spec="Spec", invariants=INV, constants=dict(
+        mc(ctx, failed, "Regions", dict(spec="Spec", invariants=INV, constants=dict(
             H=H, W=W, VALS=set(base), N=n, MUT="none")), name, coverage=(name == "3x3_b_n4"))
     # negative twins: TLC must reject each broken variant of the two passes
     for mut, H, W, n in (("nopass2", 3, 3, 4), ("noelse", 3, 3, 4), ("localreplace", 3, 3, 4),
@@ -304,12 +337,13 @@ def run(ctx):
         ctx.sample({"kind": "replay", "n": c["n"], "vals": c["vals"], "labels": c["out"]})
 
     # ---- T: seeded larger rasters
-    jobs = random_jobs(rng, ctx.pick(400, 6000), 10)
+    jobs = random_jobs(rng, ctx.pick(400, 4000), 10)
     cases = core.run_jobs("regions_worker", jobs)
     good = judge_and_handle(ctx, cases, "seeded_shapes", "T", parallel=8)
     for c in good[:3]:
         ctx.sample({"kind": "seeded", "gen": c["tag"], "n": c["n"], "dtype": c["dtype"], "vals": c["vals"],
                     "labels": c["out"]})
+    close(ctx, failed)
 
 
 META = {
